@@ -258,6 +258,12 @@ class Lowering:
             elif c is not None and c.name == 'extend' and c.is_trait_method('Extend') and len(t['args']) == 2:
                 kind = 'extend'
                 it_op = t['args'][1]
+            elif c is not None and c.name in ('then', 'then_some') and 'bool' in (c.raw.get('impl_self') or '') and len(t['args']) == 2 and t['t'] is not None and not t['dest']['p']:
+                if self.lower_bool_then(raw, bi, c.name):
+                    self.count += 1
+                    return True
+                t['lowered'] = 'skipped'
+                continue
             if kind is None or t['t'] is None or t['dest']['p']:
                 continue
             if self.lower_terminal(raw, bi, kind, it_op, c):
@@ -265,6 +271,34 @@ class Lowering:
                 return True
             t['lowered'] = 'skipped'
         return False
+
+    def lower_bool_then(self, raw, bi, name):
+        """`c.then(|| v)` / `c.then_some(v)`  ==>  if c { Some(v) } else { None }"""
+        t = raw['blocks'][bi]['term']
+        dest = t['dest']['l']
+        cont = t['t']
+        B = Builder(raw, t.get('span'))
+        cal = None
+        if name == 'then':
+            cal = self.callable_of(raw, t['args'][1])
+            if cal is None:
+                return False
+        cond, val = t['args'][0], t['args'][1]
+        raw['blocks'][bi]['term'] = None
+        yes, no, done = B.block(), B.block(), B.block()
+        B.goto(done, cont)
+        B.switch(bi, cond, [(0, no)], yes, dty='bool')
+        cur = yes
+        if name == 'then':
+            v, cur = self.emit_call(B, cur, cal, [])
+            vop = _mv(v)
+        else:
+            vop = val
+        B.assign(cur, _pl(dest), {'k': 'agg', 'ak': 'adt', 'adt': 'core::option::Option', 'variant': 'Some', 'fields': [vop], 'field_names': ['0']})
+        B.goto(cur, done)
+        B.assign(no, _pl(dest), {'k': 'agg', 'ak': 'adt', 'adt': 'core::option::Option', 'variant': 'None', 'fields': [], 'field_names': []})
+        B.goto(no, done)
+        return True
 
     def lower_terminal(self, raw, bi, kind, it_op, c):
         t = raw['blocks'][bi]['term']
